@@ -34,8 +34,8 @@ func rulesC20(c *Ctx) {
 	c.Except("C20.a", "e.id - e.getLowestID() in events.eventRingBuffer.updateLowestID", "I1: id >= lowestId (lowestId only grows together with id in Add, or is set to id - endSize <= id)")
 	c.Except("C20.a", "e.id - e.getLowestID() in events.eventRingBuffer.Resize", "I1: id >= lowestId")
 	c.Except("C20.a", "e.capacity - 1 in events.eventRingBuffer.Add", "I3: capacity >= 1 (C20.g: constructor and Resize only receive non-zero capacities)")
-	c.Except("C20.a", "e.head + e.capacity - numEventsToCopy in events.eventRingBuffer.Resize", "numEventsToCopy = min(id - lowestId, newSize) <= id - lowestId <= capacity (I4)")
-	c.Except("C20.a", "startIndex + numEventsToCopy - 1 in events.eventRingBuffer.Resize", "wraps only when numEventsToCopy == 0 and startIndex == 0, i.e. the buffer holds no event: every slot is nil, the result is reduced modulo capacity and copying any prefix of nil slots changes nothing")
+	c.Except("C20.a", "e.head + e.capacity - min(e.id - e.getLowestID(), newSize) in events.eventRingBuffer.Resize", "numEventsToCopy = min(id - lowestId, newSize) <= id - lowestId <= capacity (I4)")
+	c.Except("C20.a", "(e.head + e.capacity - min(e.id - e.getLowestID(), newSize) % e.capacity) + min(e.id - e.getLowestID(), newSize) - 1 in events.eventRingBuffer.Resize", "wraps only when numEventsToCopy == 0 and startIndex == 0, i.e. the buffer holds no event: every slot is nil, the result is reduced modulo capacity and copying any prefix of nil slots changes nothing")
 	c.Except("C20.a", "r1.end - r1.start in events.eventRingBuffer.getEntriesFromRanges", "range invariant end >= start, established at the three construction sites (C20.b checks their shape)")
 	c.Except("C20.a", "r1.end - r1.start in events.eventRingBuffer.getEntriesFromRanges#2", "range invariant end >= start")
 	c.Except("C20.a", "r2.end - r2.start in events.eventRingBuffer.getEntriesFromRanges", "range invariant end >= start (r2.start is 0)")
@@ -74,7 +74,17 @@ func rulesC20(c *Ctx) {
 			}
 			nSub++
 			st := p.StateAt(fn, n)
-			key := p.Src(n) + " in " + fn.Name
+			// the key names the operands by what they are defined as, not by the name of a local
+			canon := func(e ast.Expr) string {
+				if e == nil {
+					return "1"
+				}
+				if st == nil {
+					return p.Src(e)
+				}
+				return p.CanonSrc(e, st.Env, 0)
+			}
+			key := canon(x) + " - " + canon(y) + " in " + fn.Name
 			ok, how := p.unsignedSubGuarded(fn, st, x, y)
 			if !ok && y != nil {
 				// I2 (lowestId >= resizeOffset): x >= e.lowestId implies x >= e.resizeOffset
@@ -461,8 +471,13 @@ func rulesC20(c *Ctx) {
 					lowOK = true
 				}
 			}
-			lastCall, _ := unparen(rs.Results[2]).(*ast.CallExpr)
-			c.Check("C20.f", "answer carries the available id range", rs, lowOK && lastCall != nil && p.IsCall(lastCall, rb+".getLastEventID"), "second/third result are not getLowestID()/getLastEventID()")
+			lastOK := false
+			for _, t := range p.chain(T(rs.Results[2], ex.State)) {
+				if call, ok := unparen(t.E).(*ast.CallExpr); ok && p.IsCall(call, rb+".getLastEventID") {
+					lastOK = true
+				}
+			}
+			c.Check("C20.f", "answer carries the available id range", rs, lowOK && lastOK, "second/third result are not getLowestID()/getLastEventID()")
 		}
 		c.Floor("C20.f", "empty answers of getEventsFromID", nNil, 1)
 		c.Floor("C20.f", "data answers of getEventsFromID", nData, 2)
